@@ -9,7 +9,6 @@ package ristretto
 import (
 	"sort"
 	"time"
-	"unsafe"
 
 	"github.com/dgraph-io/ristretto/v2/z"
 )
@@ -102,7 +101,6 @@ func VerifBuffers[K Key, V any](c *Cache[K, V]) (setBufLen, setBufCap, itemsChLe
 	return len(c.setBuf), cap(c.setBuf), len(c.cachePolicy.itemsCh)
 }
 
-func VerifIsClosed[K Key, V any](c *Cache[K, V]) bool { return c.isClosed.Load() }
 
 // VerifEstimate is the TinyLFU estimate the admission policy would use for key right now.
 func VerifEstimate[K Key, V any](c *Cache[K, V], key uint64) int64 {
@@ -120,28 +118,6 @@ func VerifAdmit[K Key, V any](c *Cache[K, V]) (rows [][]byte, seeds []uint64, do
 }
 
 func VerifKeyToHash[K Key, V any](c *Cache[K, V], k K) (uint64, uint64) { return c.keyToHash(k) }
-
-// VerifMetricCells returns the addresses of all striped metric counters.
-func VerifMetricCells(m *Metrics) []unsafe.Pointer {
-	if m == nil {
-		return nil
-	}
-	var out []unsafe.Pointer
-	for i := range m.all {
-		for _, p := range m.all[i] {
-			out = append(out, unsafe.Pointer(p))
-		}
-	}
-	return out
-}
-
-// VerifClosedFlag returns the address of the cache's closed flag.
-func VerifClosedFlag[K Key, V any](c *Cache[K, V]) unsafe.Pointer { return unsafe.Pointer(&c.isClosed) }
-
-// VerifMaxCostCell returns the address of the policy's max-cost cell.
-func VerifMaxCostCell[K Key, V any](c *Cache[K, V]) unsafe.Pointer {
-	return unsafe.Pointer(&c.cachePolicy.evict.maxCost)
-}
 
 // ----- sketch / TinyLFU (C18) -------------------------------------------------------------------
 
@@ -168,7 +144,7 @@ func VerifRowIncrement(row []byte, n uint64) { cmRow(row).increment(n) }
 func VerifRowGet(row []byte, n uint64) byte  { return cmRow(row).get(n) }
 func VerifRowReset(row []byte)               { cmRow(row).reset() }
 func VerifRowClear(row []byte)               { cmRow(row).clear() }
-func VerifNewRow(numCounters int64) []byte   { return []byte(newCmRow(numCounters)) }
+func VerifNewRow(numCounters int64) []byte   { return make([]byte, numCounters/2) }
 func VerifNext2Power(x int64) int64          { return next2Power(x) }
 
 type VerifTinyLFU struct{ p *tinyLFU }
